@@ -415,6 +415,65 @@ impl Subject for STjaP {
     relocate!();
 }
 
+/// the same over futures that have no destructor (outputs do)
+pub type NF = NdFut<Tok>;
+pub type NTF = NdFut<Result<Tok, Tok>>;
+pub struct SJaN(pub JoinAll<NF>);
+impl Subject for SJaN {
+    fn poll(&mut self, cx: &mut Context<'_>) -> PollOut {
+        use std::future::Future;
+        match in_crate(|| Pin::new(&mut self.0).poll(cx)) {
+            Poll::Pending => PollOut::Pending,
+            Poll::Ready(v) => PollOut::Vec(v),
+        }
+    }
+    fn obs(&self) -> Obs {
+        Obs::default()
+    }
+    relocate!();
+}
+pub struct STjaN(pub TryJoinAll<NTF>);
+impl Subject for STjaN {
+    fn poll(&mut self, cx: &mut Context<'_>) -> PollOut {
+        use std::future::Future;
+        match in_crate(|| Pin::new(&mut self.0).poll(cx)) {
+            Poll::Pending => PollOut::Pending,
+            Poll::Ready(v) => PollOut::TryVec(v),
+        }
+    }
+    fn obs(&self) -> Obs {
+        Obs::default()
+    }
+    relocate!();
+}
+pub struct SFobN(pub FuturesOrderedBounded<NF>, pub usize);
+impl Subject for SFobN {
+    fn poll(&mut self, cx: &mut Context<'_>) -> PollOut {
+        map_item(in_crate(|| Pin::new(&mut self.0).poll_next(cx)))
+    }
+    fn push(&mut self, id: u32, how: PushHow, _panicking: bool) -> PushRes {
+        let f = NF::new(id);
+        let r = match how {
+            PushHow::Back => in_crate(|| self.0.try_push_back(f)),
+            PushHow::Front => in_crate(|| self.0.try_push_front(f)),
+        };
+        match r {
+            Ok(()) => PushRes::Accepted,
+            Err(f) => PushRes::Refused(f.id),
+        }
+    }
+    fn obs(&self) -> Obs {
+        in_crate(|| Obs {
+            len: Some(self.0.len()),
+            is_empty: Some(self.0.is_empty()),
+            capacity: Some(self.1),
+            size_hint: Some(self.0.size_hint()),
+            is_terminated: Some(self.0.is_terminated()),
+        })
+    }
+    relocate!();
+}
+
 // ---------------------------------------------------------------- construction
 
 #[derive(Clone, Copy, PartialEq, Eq, Debug, Hash)]
@@ -448,13 +507,17 @@ pub enum Kind {
     /// join_all / try_join_all over plain-data outputs
     JaP(usize),
     TjaP(usize),
+    /// join_all / try_join_all / FuturesOrderedBounded over futures without drop glue
+    JaN(usize),
+    TjaN(usize),
+    FobN(usize),
 }
 
 impl Kind {
     pub fn is_ordered(self) -> bool {
         matches!(
             self,
-            Kind::Fob(_) | Kind::FobIter(_) | Kind::FoNew | Kind::FoCap(_) | Kind::FoIter(_) | Kind::Bo(_) | Kind::Tbo(_)
+            Kind::Fob(_) | Kind::FobIter(_) | Kind::FoNew | Kind::FoCap(_) | Kind::FoIter(_) | Kind::Bo(_) | Kind::Tbo(_) | Kind::FobN(_)
         )
     }
     pub fn is_collection(self) -> bool {
@@ -470,6 +533,7 @@ impl Kind {
                 | Kind::FoNew
                 | Kind::FoCap(_)
                 | Kind::FoIter(_)
+                | Kind::FobN(_)
         )
     }
     pub fn is_merge(self) -> bool {
@@ -479,15 +543,15 @@ impl Kind {
         matches!(self, Kind::Bu(_) | Kind::Bo(_) | Kind::Tbu(_) | Kind::Tbo(_) | Kind::Fec(_))
     }
     pub fn is_join(self) -> bool {
-        matches!(self, Kind::Ja(_) | Kind::Tja(_) | Kind::JaP(_) | Kind::TjaP(_))
+        matches!(self, Kind::Ja(_) | Kind::Tja(_) | Kind::JaP(_) | Kind::TjaP(_) | Kind::JaN(_) | Kind::TjaN(_))
     }
     pub fn is_try(self) -> bool {
-        matches!(self, Kind::Tbu(_) | Kind::Tbo(_) | Kind::Tja(_) | Kind::TjaP(_))
+        matches!(self, Kind::Tbu(_) | Kind::Tbo(_) | Kind::Tja(_) | Kind::TjaP(_) | Kind::TjaN(_))
     }
     /// capacity of the bounded types (None = unbounded or not applicable)
     pub fn bound(self) -> Option<usize> {
         match self {
-            Kind::Fub(n) | Kind::FubIter(n) | Kind::Fob(n) | Kind::FobIter(n) | Kind::Mb(n) => Some(n),
+            Kind::Fub(n) | Kind::FubIter(n) | Kind::Fob(n) | Kind::FobIter(n) | Kind::Mb(n) | Kind::FobN(n) => Some(n),
             _ => None,
         }
     }
@@ -495,7 +559,7 @@ impl Kind {
     pub fn alloc_free(self) -> bool {
         matches!(
             self,
-            Kind::Fub(_) | Kind::FubIter(_) | Kind::Mb(_) | Kind::Bu(_) | Kind::Tbu(_) | Kind::Fec(_) | Kind::Ja(_) | Kind::Tja(_) | Kind::JaP(_) | Kind::TjaP(_)
+            Kind::Fub(_) | Kind::FubIter(_) | Kind::Mb(_) | Kind::Bu(_) | Kind::Tbu(_) | Kind::Fec(_) | Kind::Ja(_) | Kind::Tja(_) | Kind::JaP(_) | Kind::TjaP(_) | Kind::JaN(_) | Kind::TjaN(_)
         )
     }
 }
@@ -556,6 +620,15 @@ pub fn build(kind: Kind, prefill: &[u32]) -> Option<Box<dyn Subject>> {
                 let it: Vec<TF> = prefill.iter().map(|&i| TF::new(i)).collect();
                 Box::new(STja(in_crate(|| try_join_all(it))))
             }
+            Kind::JaN(_) => {
+                let it: Vec<NF> = prefill.iter().map(|&i| NF::new(i)).collect();
+                Box::new(SJaN(in_crate(|| join_all(it))))
+            }
+            Kind::TjaN(_) => {
+                let it: Vec<NTF> = prefill.iter().map(|&i| NTF::new(i)).collect();
+                Box::new(STjaN(in_crate(|| try_join_all(it))))
+            }
+            Kind::FobN(n) => Box::new(SFobN(in_crate(|| FuturesOrderedBounded::new(n)), n)),
             Kind::JaP(_) => {
                 let it: Vec<PF> = prefill.iter().map(|&i| PF::new(i)).collect();
                 Box::new(SJaP(in_crate(|| join_all(it))))
